@@ -56,6 +56,8 @@ def run(chk, repo):
     chk.rule("C15-L5", "documented code characters are accepted by the grammar", 5)
     chk.rule("C15-L6", "every named group has a translator", 3)
     chk.rule("C15-L8", "decoders evaluated on the language composed from the code tables (every product id, scan suffix, sampled dates and file names) give each component its table meaning; near misses and impossible dates raise ValueError", 500)
+    chk.rule("C15-L9", "the code tables evaluate to the documented tables (spec/code_tables.json): no code missing, none added", 9)
+    chk.attempt(tables_agree, chk, repo, repo.module(DECODERS))
     chk.attempt(language_evaluation, chk, repo)
     chk.attempt(grammar_rules, chk, repo, covered_by="language_evaluation", rules=("C15-L1", "C15-L2", "C15-L3", "C15-L4", "C15-L5", "C15-L6"))
     from .c13 import groupname_injective
@@ -68,11 +70,40 @@ GROUP_TABLE = {"observation_mode": "observation_modes", "observation_direction":
 PID_ORDER = ["observation_mode", "observation_direction", "processing_level", "processing_option", "map_projection", "orbit_direction"]
 
 
+def _documented_tables():
+    import json
+    import os
+    from ..core import VERIF
+    p = os.path.join(VERIF, "spec", "code_tables.json")
+    if not os.path.exists(p):
+        raise AnalysisError(f"{p} missing")
+    with open(p) as f:
+        return json.load(f)["tables"]
+
+
 def _literal_table(mod, name):
-    e = mod.assigns.get(name)
-    if not e or not isinstance(e[-1], ast.Dict) or not all(const_str(k) is not None and const_str(v) is not None for k, v in zip(e[-1].keys, e[-1].values)):
-        raise AnalysisError(f"anchor vanished: literal code table {mod.name}:{name}")
-    return {const_str(k): const_str(v) for k, v in zip(e[-1].keys, e[-1].values)}
+    """the documented table (spec/code_tables.json); the repository's table of the same name must denote the same mapping"""
+    return dict(_documented_tables()[name])
+
+
+def tables_agree(chk, repo, mod):
+    """the code tables of decoders.py, however they are written (literal, comprehension, product of parts), evaluate to the
+    documented tables: no code missing, none added, every meaning as documented"""
+    from ..repeval import from_shape, Undecided
+    from ..shapes import Interp, ShapeError, _Raise
+    I = Interp(repo)
+    for name, want in _documented_tables().items():
+        try:
+            got = from_shape(I.resolve_global(mod, name))
+        except (ShapeError, _Raise, Undecided, AnalysisError) as e:
+            raise AnalysisError(f"{mod.relpath}:{name} does not evaluate to a constant mapping ({str(e)[:100]})")
+        if not isinstance(got, dict):
+            raise AnalysisError(f"{mod.relpath}:{name} evaluates to {got!r:.60}")
+        missing, extra = sorted(set(want) - set(got)), sorted(set(got) - set(want))
+        changed = sorted(k for k in want if k in got and got[k] != want[k])
+        chk.require(not (missing or extra or changed), "C15-L9", f"{mod.relpath}:{name}", f"{len(want)} documented codes, none missing, none added",
+                    f"table {name} differs from the documented table: missing {missing}, undocumented codes {extra} (they now decode instead of raising ValueError), changed meanings {changed}",
+                    key=f"table:{name}")
 
 
 def language_evaluation(chk, repo):
@@ -147,6 +178,13 @@ def language_evaluation(chk, repo):
             expect_valueerror("decode_product_id", m, "one character is missing")
         for m in (pid + "A", "W" + pid, pid + " ", pid.lower()):
             expect_valueerror("decode_product_id", m, "it is not a product id")
+    # ---- undocumented mode codes built from documented letters (UBQ, WWQ, ...): the grammar admits any [A-Z]{3}, the table must reject
+    letters = [sorted({c_[i] for c_ in tables["observation_mode"]}) for i in range(3)]
+    tail = "".join(combos[0][1:])
+    for trip in itertools.product(*letters):
+        code = "".join(trip)
+        if code not in tables["observation_mode"]:
+            expect_valueerror("decode_product_id", code + tail, f"observation mode {code} is not documented")
     # ---- scan suffixes
     for pm, meaning in tables["processing_method"].items():
         for d in "0123456789":
